@@ -16,6 +16,7 @@ PROOF_FAIL = [
     ("failed this postcondition", "post"),
     ("unable to prove post-condition of closure", "closure-post"),
     ("unable to prove pre-condition of closure", "closure-pre"),
+    ("fails to satisfy `callee.requires(args)`", "closure-pre"),
     ("may not be in bounds", "bounds"),
     ("recommendation not met", "recommends"),
     ("constructed value may fail to meet its declared type invariant", "typeinv"),
